@@ -806,6 +806,7 @@ def exportable(grammar):
 
 
 def correspond(ctx):
+    cache_shared_path_stream(ctx)
     from lark.exceptions import GrammarError, ConfigurationError, LarkError
     rng = ctx.rng
     relevant, notread = parse_decl('Relevant'), parse_decl('NotRead')
@@ -1043,8 +1044,67 @@ def correspond(ctx):
 
 
 # ----------------------------------------------------------------------------------------------- replay
+
+def cache_shared_path_stream(ctx):
+    """One cache path reused by constructions that differ in an option (including import_paths): every cache-served
+    parser must still equal the directly built one (C11's cache leg; the cache protocol itself is C12's)."""
+    from lark import Lark
+    rng = ctx.rng
+    base = os.path.join(ctx.scratch, 'shared')
+    os.makedirs(base, exist_ok=True)
+    dirs = []
+    bodies = ['item: "a" "b"\n', 'item: "a" "c"+\n', 'item: "b" | "a" item\n']
+    for k, body in enumerate(bodies):
+        d = os.path.join(base, 'ip%d' % k)
+        os.makedirs(d, exist_ok=True)
+        open(os.path.join(d, 'lib.lark'), 'w').write(body)
+        dirs.append(d)
+    g = 'start: item ("," [item])*\n%import lib.item\n'
+    probes = [['parse', t, 'start'] for t in ['ab', 'acc', 'b', 'aab', 'ab,ab', 'ab,', 'acc,ac,', 'x', '']]
+    path = os.path.join(base, 'one.cache')
+    variants = [dict(import_paths=[dirs[0]]), dict(import_paths=[dirs[1]]), dict(import_paths=[dirs[2], dirs[0]]),
+                dict(import_paths=[dirs[0]], keep_all_tokens=True), dict(import_paths=[dirs[0]], maybe_placeholders=False),
+                dict(import_paths=[dirs[1]], propagate_positions=True), dict(import_paths=[dirs[0], dirs[2]])]
+    for rnd in range(ctx.scale(3, 12)):
+        seq = [rng.choice(variants) for _ in range(rng.randint(3, 6))]
+        if os.path.exists(path):
+            os.remove(path)
+        for step, o in enumerate(seq):
+            try:
+                direct = jsonable(observe(Lark(g, parser='lalr', **o), probes))
+                cached = jsonable(observe(Lark(g, parser='lalr', cache=path, **o), probes))
+            except Exception as e:  # noqa
+                ctx.violation('differential:cache-shared-path', {'grammar': g, 'variant': 'cache-shared-path',
+                                                                 'history': [_strip(x, base) for x in seq[:step + 1]],
+                                                                 'exception': traceback.format_exc()[-600:]}, True,
+                              'construction on a shared cache path raised %s' % type(e).__name__)
+                break
+            ctx.count('cache-shared-path', key=(rnd, step, repr(_strip(o, base))), nontrivial=step > 0)
+            if direct != cached:
+                ctx.violation('differential:cache-shared-path',
+                              {'grammar': g, 'variant': 'cache-shared-path', 'libs': bodies,
+                               'history': [_strip(x, base) for x in seq[:step + 1]]}, True,
+                              'after %d constructions on one cache path the cache-served parser differs from the direct build '
+                              'for options %s' % (step + 1, _strip(o, base)))
+                break
+
+
+def _strip(o, base):
+    o = dict(o)
+    if 'import_paths' in o:
+        o['import_paths'] = [os.path.basename(x) for x in o['import_paths']]
+    return o
+
+
 def replay(ctx, case):
     w = case['witness']
+    if w.get('variant') == 'cache-shared-path':
+        c2 = type(ctx)(ctx.prop, ctx.tier, ctx.seed)
+        try:
+            cache_shared_path_stream(c2)
+            return any(v['stage'] == 'differential:cache-shared-path' for v in c2.violations)
+        finally:
+            c2.cleanup()
     if 'grammar' not in w or 'variant' not in w:
         return False
     g, opts, variant, pr = w['grammar'], dict(w.get('options', {})), w['variant'], w.get('probe')
